@@ -309,6 +309,10 @@ def inline_unknown(facts, baseline=None):
                 if t['k'] == 'call' and 'path' in t['f']:
                     tgt = t['f'].get('res', t['f'])
                     cdp = tgt.get('dp')
+                    # an unresolved call of a trait method names the trait's item: a provided body there is only a
+                    # default that any impl may override, never what the call does
+                    if t['f'].get('trait') and 'res' not in t['f']:
+                        cdp = None
                     if cdp in unknown and cdp != dp and cdp in fns and len(mir['blocks']) + len(fns[cdp]['mir']['blocks']) < MAX_BLOCKS:
                         inline_call(mir, b, copy.deepcopy(fns[cdp]['mir']), fns[cdp].get('generics'))
                         done.append((dp, cdp))
